@@ -24,6 +24,26 @@ macro_rules! harnesses {
 }
 pub(crate) use harnesses;
 
+/// harness family for the pattern parser: additionally replaces `str::split_once`
+macro_rules! harnesses_pattern {
+    ($( $name:ident [$unwind:literal] => $body:expr ;)*) => {
+        $(
+            #[cfg(kani)]
+            #[kani::proof]
+            #[kani::unwind($unwind)]
+            #[kani::stub(std::vec::Vec::push, crate::verif::common::push_no_grow)]
+            #[kani::stub(str::split_once, crate::verif::pattern_h::split_once_escaped_space)]
+            fn $name() { $body; kani::cover!(true, "END harness end reachable"); }
+        )*
+        #[cfg(not(kani))]
+        pub fn lookup(name: &str) -> Option<fn()> {
+            $( if name == stringify!($name) { fn f() { $body } return Some(f); } )*
+            None
+        }
+    };
+}
+pub(crate) use harnesses_pattern;
+
 pub struct SymCfg {
     pub cfg: Config,
     pub scheme: Scheme,
